@@ -292,8 +292,12 @@ func (f *Frame) applyContract(fc *FuncContract, callee *ssa.Function, sig *types
 	old := f.st.clone()
 	f.advanceClock()
 	// frame
+	// the locations are those designated in the state before the call
+	var lvs []lval
 	for _, m := range fc.Modifies {
-		lv := env.lvalue(m)
+		lvs = append(lvs, env.lvalue(m))
+	}
+	for _, lv := range lvs {
 		f.havocLval(lv)
 	}
 	// results
@@ -327,6 +331,7 @@ func (f *Frame) applyContract(fc *FuncContract, callee *ssa.Function, sig *types
 func (f *Frame) havocLval(lv lval) {
 	c := f.c
 	if lv.globalsOf != nil {
+		f.frameWrite("G_"+sanitize(lv.globalsOf.Pkg.Path()+".")+"*", "", f.curPos)
 		for _, name := range sortedMemberNames(lv.globalsOf) {
 			g, ok := lv.globalsOf.Members[name].(*ssa.Global)
 			if !ok {
@@ -350,6 +355,7 @@ func (f *Frame) havocLval(lv lval) {
 	}
 	if lv.whole {
 		hn, hs := c.heapNameArr(lv.elemT)
+		f.frameWrite(hn, fmt.Sprintf("(sbase %s)", lv.slice), f.curPos)
 		h := c.heap(f.st, hn, hs)
 		oldArr := fmt.Sprintf("(select %s (sbase %s))", h, lv.slice)
 		na := c.fresh("hvarr", fmt.Sprintf("(Array %s %s)", c.idxSort(), c.sortOf(lv.elemT)))
@@ -367,6 +373,7 @@ func (f *Frame) havocLval(lv lval) {
 		vf.store(nv)
 		return
 	}
+	f.frameWritePath(lv.path, f.curPos)
 	nv := f.freshVal("hv", lv.t)
 	if lv.path.Kind == rootCell && len(lv.path.Steps) == 0 {
 		delete(f.st.ptrs, lv.path.Cell)
@@ -489,22 +496,19 @@ func (f *Frame) execAppend(cc *ssa.CallCommon, pos token.Pos, args []Val) Val {
 			return fmt.Sprintf("(select %s %s)", srcArr, c.idxAdd(fmt.Sprintf("(xoff %s)", src.S), k))
 		}
 	}
-	q := c.fresh("k", c.idxSort()) // used only to build quantified text
-	_ = q
-	K := "k!app"
+	J := "j!app"
 	ksort := c.idxSort()
-	inOld := fmt.Sprintf("(and %s %s)", c.idxLe(c.idxLit(0), K), c.idxLt(K, fmt.Sprintf("(xlen %s)", s.S)))
-	inNew := fmt.Sprintf("(and %s %s)", c.idxLe(c.idxLit(0), K), c.idxLt(K, n))
-	// elements of the old prefix and the appended suffix, relative to the result's offset
-	c.assume(fmt.Sprintf("(forall ((%s %s)) (=> %s (= (select %s %s) (select %s %s))))", K, ksort, inOld,
-		na, c.idxAdd(fmt.Sprintf("(xoff %s)", res), K), oldArr, c.idxAdd(fmt.Sprintf("(xoff %s)", s.S), K)))
-	c.assume(fmt.Sprintf("(forall ((%s %s)) (=> %s (= (select %s %s) %s)))", K, ksort, inNew,
-		na, c.idxAdd(c.idxAdd(fmt.Sprintf("(xoff %s)", res), fmt.Sprintf("(xlen %s)", s.S)), K), srcAt(K)))
-	// when appending in place, everything outside the appended window is unchanged
-	lo := c.idxAdd(fmt.Sprintf("(xoff %s)", s.S), fmt.Sprintf("(xlen %s)", s.S))
-	hi := c.idxAdd(lo, n)
-	c.assume(fmt.Sprintf("(=> %s (forall ((%s %s)) (=> (not (and %s %s)) (= (select %s %s) (select %s %s)))))", fits, K, ksort,
-		c.idxLe(lo, K), c.idxLt(K, hi), na, K, oldArr, K))
+	roff := fmt.Sprintf("(xoff %s)", res)
+	mid := c.idxAdd(roff, fmt.Sprintf("(xlen %s)", s.S))
+	end := c.idxAdd(mid, n)
+	// by absolute position: old prefix, appended elements; when appending in place everything else is unchanged
+	c.assume(fmt.Sprintf("(forall ((%s %s)) (! (and (=> (and %s %s) (= (select %s %s) (select %s %s))) (=> (and %s %s) (= (select %s %s) %s)) (=> (and %s (not (and %s %s))) (= (select %s %s) (select %s %s)))) :pattern ((select %s %s))))",
+		J, ksort,
+		c.idxLe(roff, J), c.idxLt(J, mid), na, J, oldArr, c.idxAdd(c.idxSub(J, roff), fmt.Sprintf("(xoff %s)", s.S)),
+		c.idxLe(mid, J), c.idxLt(J, end), na, J, srcAt(c.idxSub(J, mid)),
+		fits, c.idxLe(roff, J), c.idxLt(J, end), na, J, oldArr, J,
+		na, J))
+	f.frameWrite(hn, fmt.Sprintf("(sbase %s)", res), pos)
 	f.st.heaps[hn] = c.bind(hn, fmt.Sprintf("(store %s (sbase %s) %s)", h, res, na), hs)
 	return Val{T: s.T, S: res}
 }
@@ -529,16 +533,17 @@ func (f *Frame) execCopy(cc *ssa.CallCommon, pos token.Pos, args []Val) Val {
 			return fmt.Sprintf("(select %s %s)", srcArr, c.idxAdd(fmt.Sprintf("(xoff %s)", src.S), k))
 		}
 	}
+	f.frameWrite(hn, fmt.Sprintf("(sbase %s)", dst.S), pos)
 	dl := fmt.Sprintf("(xlen %s)", dst.S)
 	n := c.bind("copyn", ite(c.idxLt(sl, dl), sl, dl), c.idxSort())
 	na := c.fresh("cparr", fmt.Sprintf("(Array %s %s)", c.idxSort(), c.sortOf(dt.Elem())))
 	oldArr := fmt.Sprintf("(select %s (sbase %s))", h, dst.S)
-	K := "k!cp"
-	in := fmt.Sprintf("(and %s %s)", c.idxLe(c.idxLit(0), K), c.idxLt(K, n))
-	c.assume(fmt.Sprintf("(forall ((%s %s)) (=> %s (= (select %s %s) %s)))", K, c.idxSort(), in, na, c.idxAdd(fmt.Sprintf("(xoff %s)", dst.S), K), srcAt(K)))
+	// every element of the new array, by absolute position (robust trigger: any read of the new array)
+	J := "j!cp"
 	lo := fmt.Sprintf("(xoff %s)", dst.S)
 	hi := c.idxAdd(lo, n)
-	c.assume(fmt.Sprintf("(forall ((%s %s)) (=> (not (and %s %s)) (= (select %s %s) (select %s %s))))", K, c.idxSort(), c.idxLe(lo, K), c.idxLt(K, hi), na, K, oldArr, K))
+	c.assume(fmt.Sprintf("(forall ((%s %s)) (! (= (select %s %s) (ite (and %s %s) %s (select %s %s))) :pattern ((select %s %s))))", J, c.idxSort(),
+		na, J, c.idxLe(lo, J), c.idxLt(J, hi), srcAt(c.idxSub(J, lo)), oldArr, J, na, J))
 	f.st.heaps[hn] = c.bind(hn, fmt.Sprintf("(store %s (sbase %s) %s)", h, dst.S, na), hs)
 	return Val{T: types.Typ[types.Int], S: n}
 }
@@ -651,6 +656,7 @@ func (v viewField) load() Val {
 
 func (v viewField) store(x Val) {
 	c := v.f.c
+	v.f.frameWritePath(v.base, v.f.curPos)
 	cur := c.load(v.st, v.base)
 	switch v.kind {
 	case "slice":
